@@ -58,6 +58,17 @@ class _Aux:
                     self.refs[l] = ("alias", _op_place(rv["op"])["l"])
         self.proms = fn.raw.get("promoted", [])
 
+    def pointee(self, l, depth=0):
+        """The local a reference local points to (through reborrows and moves of the reference), if unique."""
+        r = self.refs.get(l)
+        if r is None or depth > 6:
+            return None
+        if r[0] == "local":
+            return r[1]
+        if r[0] == "alias":
+            return self.pointee(r[1], depth + 1)
+        return None
+
     def fieldless(self, adt):
         a = self.adts.get(adt)
         return bool(a) and all(not v.get("fields") for v in a.get("variants", []))
@@ -131,6 +142,11 @@ def _transfer(fn, b, fs, tracked, root, enums=frozenset(), resolved=None, edge_f
                         new = fs[p["l"]][1]
             elif k == "discr":
                 p = rv["pl"]
+                if p.get("p") == ["deref"] and aux is not None:
+                    # `match *self` on a reference to a value whose variant is known on this path
+                    tgt_ = aux.pointee(p["l"])
+                    if tgt_ is not None:
+                        p = {"l": tgt_}
                 ov = _outer(fs.get(p["l"])) if not p.get("p") else None
                 if ov is not None:
                     val = None
@@ -251,7 +267,7 @@ def _transfer(fn, b, fs, tracked, root, enums=frozenset(), resolved=None, edge_f
     return fs, []
 
 
-def _relevant_liveness(fn):
+def _relevant_liveness(fn, aux=None):
     """live_in[b]: locals whose variant may still be inspected (discriminant, `?`, move/copy of the whole value or
     of its payload, wrapping into another tracked enum, switch) on some path from the start of b before they are
     overwritten.  Facts about other locals are useless and dropped, so product states merge early."""
@@ -277,6 +293,10 @@ def _relevant_liveness(fn):
                     use(p["l"])
             elif k == "discr":
                 use(rv["pl"]["l"])
+                if rv["pl"].get("p") == ["deref"] and aux is not None:
+                    tgt_ = aux.pointee(rv["pl"]["l"])
+                    if tgt_ is not None:
+                        use(tgt_)
             elif k == "ref":
                 if not rv["pl"].get("p"):
                     use(rv["pl"]["l"])      # `&plan` handed to a derived `==`
@@ -364,8 +384,8 @@ def threaded(fn, limit_factor=4):
     blocks = fn.blocks
     nb = len(blocks)
     root = fn.path
-    live = _relevant_liveness(fn)
     aux = _Aux(fn)
+    live = _relevant_liveness(fn, aux)
     fx_ = getattr(fn, "fx", None)
     enums = frozenset(p_ for p_, a_ in (fx_.adts.items() if fx_ is not None else []) if a_.get("kind") == "enum")
     limit = limit_factor * nb + 400
